@@ -221,6 +221,8 @@ Upd(e) ==
               (IF Get(joined, OwnerOf(e.m), "") # "" /\ OwnerOf(e.m) \notin faulted
                     /\ Get(joined, OwnerOf(e.m), "") \notin Get(left, OwnerOf(e.m), {})
                  THEN {"C15_LeaveOnClose"} ELSE {})
+              \* Close returns only when every function started in any generation has returned
+              \cup (IF \E k \in DOMAIN gens : k[1] = e.m /\ gens[k].routines # 0 THEN {"C15_CloseWaits"} ELSE {})
          /\ UNCHANGED <<tid, cfg, stored, committed, asked, delivered, fetched, stream, pending, reading, joined, left, faulted, gens, lastFail, closing>>
     [] e.ev = "bfetch" ->
          /\ viol' = viol \cup LateCheck(e, e.owner)
